@@ -1,7 +1,8 @@
 (* C17 -- a process crash at any point never makes Darr return wrong data. *)
 From Coq Require Import ZArith List Bool.
 From Darr Require Import Base ArrayModel RaggedModel Spec Crash Proofs.ArrayRefine Proofs.ArrayHist Proofs.CrashSafe
-     Proofs.RaggedBase Proofs.RaggedRefine Proofs.RaggedProps Proofs.RCrashSafe.
+     Proofs.RaggedBase Proofs.RaggedRefine Proofs.RaggedProps Proofs.RCrashSafe
+     Skel Gen_effects EffectOrder Proofs.SkelProofs.
 Import ListNotations.
 Open Scope Z_scope.
 
@@ -59,6 +60,53 @@ Print Assumptions C17_ragged_truncate_crash_safe.
 Theorem C17_traced_states_are_crash_states : forall es d s, In s (trace_states d es) -> crash d es s.
 Proof. exact crash_trace. Qed.
 Print Assumptions C17_traced_states_are_crash_states.
+
+(* ---- the ORDER of file effects, tied to the source by the translator ----
+   Gen_effects.v holds the control skeletons of Array._update_arrayinfo, _update_len,
+   _append, iterappend and truncate_array as gen/py2v.py reads them from darr/array.py on
+   every run (calls from a fixed effect vocabulary, with the if / for / try / with structure
+   around them; everything else dropped).  aruns s o ks (Skel.v, EffectOrder.v): the
+   skeleton s admits a run with outcome o performing the effect kinds ks in this order
+   (conditions go either way, loops run any number of times, any statement may raise, a
+   primitive call may raise after part of its effects).
+   The crash theorems above are about the model's effect logs; these theorems say that the
+   log of EVERY call of the model (every state, every fault plan) is, kind by kind and in
+   order, a run of the skeleton of the present source -- so "data file first, then
+   description, then README; recovery: description, README, then cut the file; truncate: cut
+   the file, then description, README" is what the code says now.  A reordered step, a
+   dropped or an added effect call in these functions changes Gen_effects.v and these
+   proofs no longer check. *)
+Theorem C17_append_order_from_source : forall h d cs r h' es,
+  iterappend h d cs = (r, h', es) ->
+  exists o, oc_match r o /\ aruns sk_iterappend o (map kind_of es).
+Proof. exact iterappend_runs. Qed.
+Print Assumptions C17_append_order_from_source.
+
+Theorem C17_truncate_order_from_source : forall h d idx r h' es,
+  truncate h d idx = (r, h', es) ->
+  exists o, oc_match r o /\ aruns sk_truncate_array o (map kind_of es).
+Proof. exact truncate_runs. Qed.
+Print Assumptions C17_truncate_order_from_source.
+
+Theorem C17_update_len_order_from_source : forall h d inc h' es,
+  update_len h d inc = Ok (h', es) -> aruns sk_update_len Normal (map kind_of es).
+Proof. exact update_len_runs. Qed.
+Print Assumptions C17_update_len_order_from_source.
+
+Theorem C17_append_chunk_order_from_source : forall h c es r,
+  append_one h c = (es, r) ->
+  runs fdprim nosub sk_append (match r with Some _ => Returned | None => Raised end) (map kind_of es).
+Proof. exact append_one_runs. Qed.
+Print Assumptions C17_append_chunk_order_from_source.
+
+(* non-vacuity: the recovery path of a two-chunk append whose second chunk is refused *)
+Example C17_order_example :
+  match iterappend (mkHandle RW Int16 Little [1])
+          (mkDir (Some [1;0]) (Val (mkDescr Int16 Little [1] OrdC)) (Val (mkDescr Int16 Little [1] OrdC, false)) false)
+          [CGood [] [[2;0]]; CGood [3] []] with
+  | (r, _, es) => r = Err AppendDataError /\ map kind_of es = [KAppend; KDescr; KReadme; KTrunc]
+  end.
+Proof. cbn. split; reflexivity. Qed.
 
 (* non-vacuity: a torn second chunk and a torn descriptor *)
 Definition ex_s : sarr := mkSarr Int16 Little OrdC [] [[1;0]] RW false.
